@@ -321,6 +321,16 @@ def rule_siblings(ctx, repo, ci):
     same_sc = _eq(a['early'], b['early'])
     r.check(same_sc is True, 'agree:shortcuts', ins.site, 'shortcuts: %s' % a['early'],
             'insert and contains disagree on shortcuts: insert leaves early when `%s`, contains when `%s` (an inserted element can then be reported as absent)' % (a['early'], b['early']))
+    # what the shortcuts answer: a filter that is full or empty matches everything (contains -> True), and there is
+    # nothing to set (insert -> leaves)
+    for n in con.node.body:
+        if isinstance(n, ast.If) and 'isinstance' not in norm(n.test) and not n.orelse:
+            key = 'shortcut-answer:%s' % norm(n.test)[:40]
+            if len(n.body) == 1 and isinstance(n.body[0], ast.Return) and isinstance(n.body[0].value, ast.Constant):
+                r.check(n.body[0].value.value is True, key, common.site_of(con, n), 'answers True', 'contains answers %r when `%s`: a full (or empty) filter matches every element, an inserted element is reported absent'
+                        % (n.body[0].value.value, norm(n.test)), sure=True)
+            else:
+                r.undecided(key, common.site_of(con, n), 'the shortcut `%s` of contains does not simply return a constant' % norm(n.test)[:50])
     def unvar(f_, k):
         # compare modulo the names of the loop / index variables
         v = f_.get(k)
